@@ -397,6 +397,14 @@ pub fn a4_std_models(c: &StrCase) -> Outcome {
     if real != lines_b(b) {
         return Err(format!("str::lines({:?}) = {:?}, the model gives {:?}", s, real, lines_b(b)));
     }
+    // --- U9's axiom lines_is_split_term: without a carriage return, str::lines is split_terminator('\n')
+    if !s.contains('\r') {
+        let st: Vec<&str> = s.split_terminator('\n').collect();
+        let ls: Vec<&str> = s.lines().collect();
+        if st != ls {
+            return Err(format!("str::lines({:?}) = {:?} but split_terminator('\\n') gives {:?}", s, ls, st));
+        }
+    }
     // --- str::split(&str) / split(char): pieces with positions  (u11: VxSplitStr, u10: VxSplitChar)
     for sep in ["\n", "\r\n"] {
         let pieces: Vec<&str> = s.split(sep).collect();
